@@ -126,6 +126,22 @@ CLAIMS = {
         design_ref="5/C07",
         note=TRUST + "; GLR engine sampled; scope = grammars whose LALR_PAGER items pass Table.rawDeterministic",
         technique="Lean 4 proof (uniqueness of the LR tree) + differential comparison of the real LR and GLR parsers"),
+    "C08": dict(
+        category="proof",
+        text=("Theorems C08_arrays_faithful, C08_functions_faithful, C08_no_error_in_cells, C08_layouts_agree, C08_layouts_agree_run (LR "
+              "runtime model), C08_enum_order, C08_arrays_dimensions: for every grammar and table satisfying the decidable Gen.WF "
+              "(evaluated on every dump of the real compiler), the table-bearing code written by both part generators (nested arrays, "
+              "per-state functions) answers every (state, token) action query, every (state, nonterminal) goto query and every "
+              "expected-token query exactly as the computed table, including order, padding invisibility, panic on undefined goto and "
+              "exhaustive matches; the two layouts agree on every query and give identical LR runs on every input; enum variant order "
+              "equals table order (ProdKind skipping AUG/AUGL) and From<ProdKind> maps each production to its left-hand side. Ties: syn "
+              "extraction of the real generated file compared with the rendered Lean model incl. the constant impl text; every query "
+              "put to COMPILED generated parsers of both layouts x LR/GLR compared with the dump and with the Lean evaluators; layouts "
+              "compared on parses. Outside the statement: grammars whose generated enums repeat a variant name (hypothesis namesOk, "
+              "C08_namesOk_needed); GLR run equality is differential only."),
+        design_ref="5/C08",
+        note=TRUST + "; rustc compiles the generated parsers in the behaviour-level tie; syn/prettyplease text extraction is trusted",
+        technique="Lean 4 proof over an abstract syntax of the generated table code + code-level and compiled behaviour-level correspondence"),
     "C12": dict(
         category="proof",
         text=("PARTIAL. Proved: C12_sentences_never_error and C12_error_only_on_nonsentence (certified deterministic table: a run on a "
